@@ -1,9 +1,10 @@
 import AslModel.HttpRange
 import AslProofs.HttpParse
 import AslProofs.HttpFrame
+import AslProofs.HttpDispatch
 /-! Lemmas for C09's Range parser, Upgrade hand-off and single percent-decoding. -/
 namespace AslProofs.HttpRange
-open AslModel.HttpParse AslProofs.HttpParse
+open AslModel.HttpParse AslProofs.HttpParse AslProofs.HttpDispatch
 
 theorem splitC_length (sep : UInt8) (s : Bytes) : 1 ≤ (splitC sep s).length := by
   simp [splitC]
@@ -84,5 +85,38 @@ theorem mem_escPct (p : Bytes) (c : UInt8) (h : c ∈ escPct p) : c ∈ p ∨ c 
       · rcases ih h with h | h
         · left; exact List.mem_cons_of_mem _ h
         · right; exact h
+
+/-- `parseTarget_plain` without its `..` hypothesis: the path is the once-decoded target, cut at a decoded NUL, with the `..`
+    of *that text* removed when it has any -/
+theorem parseTarget_plain_any (raw : Bytes) (hq : ∀ c ∈ raw, c ≠ 35 ∧ c ≠ 63) :
+    ∃ t, parseTarget raw = .ok t ∧
+      t.path = (if hasDD (cstr (urlDecodeSpec raw)) then rmDD (cstr (urlDecodeSpec raw)) else cstr (urlDecodeSpec raw)) ∧
+      t.query = [] ∧ t.fragment = [] := by
+  have hnone : ∀ c : UInt8, (c = 35 ∨ c = 63) → findByte c (cstr raw) = none := by
+    intro c hc
+    cases hf : findByte c (cstr raw) with
+    | none => rfl
+    | some k =>
+      exfalso
+      obtain ⟨hk, hg, _⟩ := findByte_some hf
+      obtain ⟨r, hr⟩ := cstr_prefix raw
+      have hmem : c ∈ raw := by
+        rw [hr]
+        apply List.mem_append_left
+        rw [← hg]
+        simp only [List.getD_eq_getElem?_getD, List.getElem?_eq_getElem hk, Option.getD_some]
+        exact List.getElem_mem hk
+      rcases hc with rfl | rfl
+      · exact (hq _ hmem).1 rfl
+      · exact (hq _ hmem).2 rfl
+  unfold parseTarget splitTarget indexOfByteFrom?
+  simp only [Nat.zero_le, if_true, List.drop_zero, hnone 35 (Or.inl rfl), hnone 63 (Or.inr rfl), Option.map_none,
+    pure, Except.pure, bind, Except.bind, splitFragment, splitQuery]
+  rw [substring?_ok _ _ _ (Nat.zero_le _) (Nat.le_refl _)]
+  simp only [List.drop_zero, Nat.sub_zero, List.take_length]
+  unfold sanitize
+  rw [urlDecode_eq_spec]
+  simp only [bind, Except.bind, pure, Except.pure]
+  exact ⟨_, rfl, rfl, rfl, rfl⟩
 
 end AslProofs.HttpRange
